@@ -201,3 +201,74 @@ def refs(e) -> set:
     for s in e[1:]:
         out |= refs(s)
     return out
+
+
+# ---------------------------------------------------------------- pseudo- vs strict-complex backstop
+class _TooBig(Exception):
+    pass
+
+
+def _nnf(e, pos, mode):
+    """Negation normal form as nested ("AND"|"OR", l, r) / ("L", name, sign); mode = (form for an effective
+    equivalence, form for an effective xor), each "C" (conjunctive expansion) or "D" (disjunctive)."""
+    op = e[0]
+    if op == "T":
+        return ("L", e[1], pos)
+    if op == "NOT":
+        return _nnf(e[1], not pos, mode)
+    a, b = e[1], e[2]
+    if op in ("IMPLIES", "REQUIRES"):
+        return _nnf(["OR", ["NOT", a], b], pos, mode)
+    if op == "EXCLUDES":
+        return _nnf(["OR", ["NOT", a], ["NOT", b]], pos, mode)
+    if op in ("AND", "OR"):
+        eff = op if pos else ("OR" if op == "AND" else "AND")
+        return (eff, _nnf(a, pos, mode), _nnf(b, pos, mode))
+    if op in ("EQUIVALENCE", "XOR"):
+        is_eq = (op == "EQUIVALENCE") == pos          # effective equivalence (else effective xor)
+        form = mode[0] if is_eq else mode[1]
+        if is_eq:
+            t = (["AND", ["OR", ["NOT", a], b], ["OR", ["NOT", b], a]] if form == "C"
+                 else ["OR", ["AND", a, b], ["AND", ["NOT", a], ["NOT", b]]])
+        else:
+            t = (["AND", ["OR", a, b], ["OR", ["NOT", a], ["NOT", b]]] if form == "C"
+                 else ["OR", ["AND", a, ["NOT", b]], ["AND", ["NOT", a], b]])
+        return _nnf(t, True, mode)
+    raise ValueError(op)
+
+
+def _cnf(n, limit=4000):
+    if n[0] == "L":
+        return [((n[1], n[2]),)]
+    left, right = _cnf(n[1], limit), _cnf(n[2], limit)
+    if n[0] == "AND":
+        out = left + right
+    else:
+        if len(left) * len(right) > limit:
+            raise _TooBig()
+        out = [c + d for c in left for d in right]
+    if len(out) > limit:
+        raise _TooBig()
+    return out
+
+
+def unanimously_pseudo(e):
+    """True when each of 16 textbook transformations of the logical formula e into clauses (4 ways of expanding
+    equivalence/xor by polarity x with/without merging repeated literals x with/without dropping tautological
+    clauses) yields only clauses of the simple shape (two literals, at least one negated).  None when a
+    transformation is too big to carry out.  Used one-way only: a constraint that every such transformation turns
+    into simple constraints can evidently 'be transformed to a set of simple constraints'."""
+    try:
+        for mode in ("CC", "CD", "DC", "DD"):
+            clauses = _cnf(_nnf(e, True, mode))
+            for dedupe in (False, True):
+                for drop_taut in (False, True):
+                    for c in clauses:
+                        lits = list(dict.fromkeys(c)) if dedupe else list(c)
+                        if drop_taut and any((n, not s) in lits for n, s in lits):
+                            continue
+                        if len(lits) != 2 or all(s for _, s in lits):
+                            return False
+    except _TooBig:
+        return None
+    return True
